@@ -34,8 +34,10 @@ def jobs_for(tier, rng):
     # PD = 16384; 32-bit model integers then leave room for one sweep from zero with rewards in {-1, 0, 1}
     # (gamma = 1 keeps the denominator at PD; rewards in {0, 1} keep values and span within [0, 1]).
     for k in range(6 if tier == "quick" else 24):
-        m = T.random_mdp(rng, ns=rng.randint(4, 16), na=2, ne=rng.choice([2, 3]), PD=16384, rmax=1, v0max=0,
+        m = T.random_mdp(rng, ns=rng.randint(4, 16), na=2, ne=rng.choice([1, 2, 3]), PD=16384, rmax=1, v0max=0,
                          plain_render=True)
+        if m["ne"] == 1:
+            m["pk"] = [[[16384] for _ in sa] for sa in m["pk"]]
         m["rew"] = [[[abs(r) for r in row] for row in sa] for sa in m["rew"]]      # values and span stay within [0, 1]
         for _ in range(rng.randint(2, 6)):
             s_, a_ = rng.randrange(m["ns"]), rng.randrange(m["na"])
@@ -43,6 +45,32 @@ def jobs_for(tier, rng):
             m["pk"][s_][a_][e_] -= rng.choice([1, 1, 2])        # deficit of 1/16384 or 2/16384 (< 1e-4 / > 1e-4)
         jobs.append({"mdp": m, "kind": "VI", "gamma": [1, 1], "eps": [1, 1], "test": "span", "calls": [1], "mbs": 1024,
                      "tag": f"deficient{k}", "must_complete": True})
+    # a rare catastrophic event (probability 2^-127 - below the single-precision range - times a reward of 2^127):
+    # the expectation must weigh it like any other event
+    for k in range(6 if tier == "quick" else 60):
+        m = gen.union(rng, rng.randint(2, 6), PD=rng.choice([1, 2, 4]), rmax=3, v0max=2, plain=rng.random() < 0.5, chain=False)
+        gen.fix_dups(m)
+        gen.add_rare(rng, m, pexp=rng.choice([127, 127, 200, 60]))
+        jobs.append({"mdp": m, "kind": "VI", "gamma": rng.choice(GAMMAS[:3]), "eps": [1, 4], "test": rng.choice(["span", "max_diff"]),
+                     "calls": [2], "mbs": rng.choice([3, 1024]),
+                     "injects": [{"v": gen.rand_values(rng, m["ns"], vmax=6)} for _ in range(2)], "tag": f"rare{k}",
+                     "must_complete": True})
+    # coarse sub-stochastic rows (a problem may leave out events on purpose), including single-event problems whose
+    # only event has an action-dependent probability below one
+    for k in range(6 if tier == "quick" else 40):
+        ne = rng.choice([1, 1, 2])
+        m = T.random_mdp(rng, ns=rng.randint(2, 8), na=rng.randint(2, 3), ne=ne, PD=4, rmax=3, v0max=2, plain_render=rng.random() < 0.5)
+        for sa in m["pk"]:
+            for row in sa:
+                if ne == 1:
+                    row[0] = rng.choice([2, 3, 4, 4])
+                elif rng.random() < 0.5 and row[0] > 0:
+                    row[0] -= 1
+        gen.fix_dups(m)
+        jobs.append({"mdp": m, "kind": "VI", "gamma": rng.choice(GAMMAS[:3]), "eps": [1, 4], "test": rng.choice(["span", "max_diff"]),
+                     "calls": [2], "mbs": rng.choice([3, 1024]),
+                     "injects": [{"v": gen.rand_values(rng, m["ns"], vmax=6)} for _ in range(2)], "tag": f"substochastic{k}",
+                     "must_complete": True})
     # at scale: more states than the default max_batch_size of 1024 (several batches with the default configuration)
     for k in range(2 if tier == "quick" else 8):
         m = gen.union(rng, rng.randint(560, 640), PD=rng.choice([2, 4]), na=2, ne=2, rmax=3, v0max=2, plain=k % 2 == 0)
